@@ -177,6 +177,10 @@ def build(rng, options, places, wd, tag, conflicts=None, all_opts=()):
     """options: ordered dict name -> value (flags: True). Returns argv (with -c if needed)."""
     parts, cfg = [], []
     for opt, val in options.items():
+        if opt in ("input", "output") and isinstance(val, str) and val.startswith(wd + os.sep) and rng.random() < 0.4:
+            # the same location spelled differently (the process runs with cwd = wd): relative, ./, trailing slash, /./
+            rel = os.path.relpath(val, wd)
+            val = rng.choice([rel, "./" + rel, rel + "/", os.path.join(wd, ".", rel), "." + os.sep + rel + os.sep])
         a, c = spell(rng, opt, val, places.get(opt, "cli"), (conflicts or {}).get(opt), all_opts)
         if a:
             parts.append(a)
@@ -451,7 +455,7 @@ def _child(ctx, case, nc, wd, proto, src, ref):
                     ctx.violation(dict(case, argv=argv), "write-under-input-root", "strace saw %s %s" % (kind, pth))
                     return
     else:
-        p = c02.run_cli(argv, rng.randint(1, 9999))
+        p = c02.run_cli(argv, rng.randint(1, 9999), cwd=wd)
     ctx.count("cli_child_processes")
     tb = tree_bytes(dst) if os.path.exists(dst) else None
     ctx.count("equivalence_comparisons")
